@@ -80,6 +80,14 @@ def jobs(pid, tier):
             J.append(Job('k7_swap', dict(N=5, L=3, x=0, K=3), need_outcomes=['swapped']))
             J.append(Job('k7_swap', dict(N=5, L=3, x=1, K=3, by='reversed'), need_outcomes=['swapped']))
             J.append(Job('sched', dict(L=4, kinds=['sift', 'to_order', 'to_pairs']), need_outcomes=['done:sift']))
+    if pid == 'C08':
+        J.append(Job('autoref_life', dict(N=4, L=2), need_outcomes=['done:' + o for o in
+                     ('var', 'ite', 'apply', 'let_fn', 'quantify', 'succ', 'low_high', 'operators',
+                      'comparisons', 'del_twice', 'image', 'copy_other')]))
+        # live handles through collections and reorderings: the K8 / K7 steps with the
+        # ledger read as "number of live Functions", plus a live handle's views across a swap
+        J.append(Job('k7_swap', dict(N=4, L=2, x=0, K=2, handle=True), need_outcomes=['swapped']))
+        J.append(Job('k8_gc', dict(N=4, L=2, roots=0, nondet=True), need_outcomes=['collected']))
     if pid == 'C09':
         J.append(Job('dynreorder', dict(N=3, L=2, fires=1), need_outcomes=['fired:ite', 'quiet:ite', 'fired:quantify']))
     if pid == 'C10':
@@ -97,6 +105,8 @@ def jobs(pid, tier):
     if pid == 'C12':
         J.append(Job('pickle_rt', dict(N=4, L=2, NT=3), need_outcomes=['loaded:' + v for v in
                      ('fresh_list', 'fresh_dict', 'fresh_rootless', 'declared_same', 'declared_other_nolevels', 'manager')] + ['refused']))
+        J.append(Job('pickle_rt', dict(N=3, L=3, NT=2, variants=['declared_other_nolevels']),
+                     need_outcomes=['loaded:declared_other_nolevels']))
     if pid == 'C13':
         J.append(Job('image', dict(N=4, L=2, styles=['names']), need_outcomes=['returned:preimage', 'returned:image']))
         J.append(Job('image', dict(N=3, L=2, styles=['levels']), need_outcomes=['returned:preimage', 'returned:image']))
@@ -115,6 +125,8 @@ def jobs(pid, tier):
         J.append(Job('dddmp', dict(M=2, nroots=1), need_outcomes=['loaded']))
         J.append(Job('dddmp', dict(M=3 if q else 4, nroots=2, headers=['v0gap', 'v3'] if q else ['v0', 'v0gap', 'v1', 'v3']),
                      need_outcomes=['loaded']))
+    if pid == 'C17':
+        J.append(Job('reject', dict(N=3, L=2, fires=1), need_outcomes=['rejected:apply_unknown_op', 'rejected:expr_syntax', 'rejected:var_undeclared']))
     if pid == 'C19':
         for w in ('cudd', 'cudd_zdd', 'sylvan', 'buddy'):
             J.append(Job('pyx', dict(which=w), need_outcomes=['compared'], procs=4))
